@@ -97,6 +97,9 @@ func (g *Gen) setupEntry() *State {
 	for _, p := range fn.FreeVars {
 		v := g.freshVal(p, st, "true")
 		g.penv[p.Name()] = v
+		if v.Sort == "Loc" {
+			g.assume("(not (= " + v.T + " nilloc))") // a captured variable is the address of a live cell
+		}
 	}
 	g.old = st.clone()
 	env := g.envFor(g.penv, st, g.old)
@@ -285,23 +288,44 @@ func (g *Gen) block(b *ssa.BasicBlock, entry *State) {
 
 // nameAt resolves source variable names to values at a loop head.
 func (g *Gen) loopEnv(li *loopInfo, st *State, phiVals map[*ssa.Phi]string) map[string]Val {
+	vars := g.namesAt(li.head, 0)
+	for _, l2 := range g.loops {
+		if l2.preSt != nil {
+			vars[fmt.Sprintf("$loopApre%d", l2.ord)] = Val{T: l2.preSt.A, Sort: "Int"}
+		}
+	}
+	for _, phi := range li.phis {
+		if phi.Comment != "" {
+			if t, ok := phiVals[phi]; ok {
+				vars[phi.Comment] = Val{T: t, Sort: g.u.sortOf(phi.Type()), GoT: phi.Type()}
+			}
+		}
+	}
+	return vars
+}
+
+// namesAt resolves source variable names to values just before instruction index upTo of block at:
+// parameters, then the latest dominating DebugRef for each name.
+func (g *Gen) namesAt(at *ssa.BasicBlock, upTo int) map[string]Val {
 	vars := map[string]Val{}
 	for k, v := range g.penv {
 		vars[k] = v
 	}
-	// values named by DebugRefs in dominating blocks (latest wins), then allocs, then phis
 	type cand struct {
 		v   Val
 		blk int
 		ord int
 	}
 	best := map[string]cand{}
-	head := li.head
+	head := at
 	for _, b := range g.fn.Blocks {
-		if !(b.Dominates(head)) || b == head {
+		if !(b.Dominates(head)) {
 			continue
 		}
 		for i, ins := range b.Instrs {
+			if b == head && i >= upTo {
+				break
+			}
 			switch x := ins.(type) {
 			case *ssa.DebugRef:
 				name := debugName(x)
@@ -327,17 +351,7 @@ func (g *Gen) loopEnv(li *loopInfo, st *State, phiVals map[*ssa.Phi]string) map[
 		}
 	}
 	for n, c := range best {
-		if _, isParam := vars[n]; isParam {
-			// a parameter that was reassigned: the debug ref wins (loop-invariant value)
-		}
 		vars[n] = c.v
-	}
-	for _, phi := range li.phis {
-		if phi.Comment != "" {
-			if t, ok := phiVals[phi]; ok {
-				vars[phi.Comment] = Val{T: t, Sort: g.u.sortOf(phi.Type()), GoT: phi.Type()}
-			}
-		}
 	}
 	return vars
 }
@@ -352,7 +366,9 @@ func domDepth(b *ssa.BasicBlock) int {
 
 func debugName(x *ssa.DebugRef) string {
 	if id, ok := x.Expr.(*ast.Ident); ok {
-		return id.Name
+		if v, isVar := x.Object().(*types.Var); isVar && !v.IsField() && v.Pkg() != nil && v.Parent() != v.Pkg().Scope() {
+			return id.Name
+		}
 	}
 	return ""
 }
@@ -393,6 +409,39 @@ func (g *Gen) loopHead(b *ssa.BasicBlock, li *loopInfo, st *State, rname string,
 	}
 	// havoc
 	g.scanLoop(li, st)
+	// user-declared loop frame (checked at the back edges like the guessed one)
+	for _, m := range g.con.LoopMod[li.ord] {
+		v := env.tr(m)
+		if !v.isLv() {
+			panic(fmt.Errorf("loop %d modifies item %s is not an lvalue", li.ord, m))
+		}
+		add := func(k, l string) {
+			for _, s := range li.sLocs[k] {
+				if s == l {
+					return
+				}
+			}
+			li.sLocs[k] = append(li.sLocs[k], l)
+			found := false
+			for _, kk := range li.kinds {
+				if kk == k {
+					found = true
+				}
+			}
+			if !found {
+				li.kinds = append(li.kinds, k)
+				sort.Strings(li.kinds)
+			}
+		}
+		switch {
+		case v.Win != nil:
+			li.sWins = append(li.sWins, *v.Win)
+		case v.GKind != "":
+			add(v.GKind, v.Addr)
+		default:
+			g.flatCells(v.GoT, v.Addr, add)
+		}
+	}
 	hs := st.clone()
 	if li.allHav {
 		g.havocAll(hs)
@@ -413,6 +462,7 @@ func (g *Gen) loopHead(b *ssa.BasicBlock, li *loopInfo, st *State, rname string,
 				}
 			}
 			g.assume("(forall ((l Loc)) (! (=> " + andTerms(conds) + " (= (select " + hn + " l) (select " + hpre + " l))) :pattern ((select " + hn + " l))))")
+			g.frames = append(g.frames, havocFrame{kind: k, hn: hn, hpre: hpre, conds: andTerms(conds)})
 			if k == "bytes" {
 				for _, w := range li.sWins {
 					g.assume(winFrame(hn, hpre, w, len(li.sWins) == 1))
@@ -547,6 +597,9 @@ func (g *Gen) scanLoop(li *loopInfo, st *State) {
 		for _, ins := range b.Instrs {
 			switch x := ins.(type) {
 			case *ssa.Store:
+				if a := rootAlloc(x.Addr); a != nil && li.blocks[a.Block()] && g.privateAlloc(a) {
+					continue // writes to an object that is created and dies within one iteration
+				}
 				loc := ""
 				if g.definedOutside(li, x.Addr) {
 					loc = g.val(x.Addr).T
@@ -559,6 +612,9 @@ func (g *Gen) scanLoop(li *loopInfo, st *State) {
 				})
 			case *ssa.Alloc:
 				li.allocs = true
+				if g.privateAlloc(x) {
+					continue
+				}
 				cells(x.Type().Underlying().(*types.Pointer).Elem(), "", func(k, l string) { kinds[k] = true })
 			case *ssa.MakeSlice:
 				li.allocs = true
@@ -811,6 +867,7 @@ func (g *Gen) backEdge(b *ssa.BasicBlock, succIdx int, h *ssa.BasicBlock, st *St
 				continue
 			}
 			sk := g.freshConst("lf", "Loc")
+			g.instFrames(k, sk)
 			var conds []string
 			conds = append(conds, "(< (l_obj "+sk+") "+li.preSt.A+")")
 			for _, s := range li.sLocs[k] {
@@ -925,6 +982,7 @@ func (g *Gen) frameCheck(st *State, env *Env) {
 			continue
 		}
 		sk := g.freshConst("fr", "Loc")
+		g.instFrames(k, sk)
 		conds := []string{"(< (l_obj " + sk + ") A0)"}
 		for _, l := range modLocs[k] {
 			conds = append(conds, "(not (= "+sk+" "+l+"))")
@@ -1002,3 +1060,77 @@ func (e *Env) mapLen(b Val, m *types.Map) string {
 }
 
 var _ = strings.Join
+
+// rootAlloc follows FieldAddr/IndexAddr chains back to an Alloc.
+func rootAlloc(v ssa.Value) *ssa.Alloc {
+	for {
+		switch x := v.(type) {
+		case *ssa.Alloc:
+			return x
+		case *ssa.FieldAddr:
+			v = x.X
+		case *ssa.IndexAddr:
+			v = x.X
+		default:
+			return nil
+		}
+	}
+}
+
+// privateAlloc: the object never outlives the statement sequence that creates it: its
+// address is only used for element/field stores and loads, or sliced and handed to
+// callees whose contract is pure (variadic argument arrays of logging/formatting calls).
+func (g *Gen) privateAlloc(a *ssa.Alloc) bool {
+	var ok func(v ssa.Value, depth int) bool
+	ok = func(v ssa.Value, depth int) bool {
+		if depth > 4 || v.Referrers() == nil {
+			return false
+		}
+		for _, r := range *v.Referrers() {
+			switch x := r.(type) {
+			case *ssa.Store:
+				if x.Val == v {
+					return false
+				}
+			case *ssa.UnOp:
+			case *ssa.DebugRef:
+			case *ssa.FieldAddr:
+				if !ok(x, depth+1) {
+					return false
+				}
+			case *ssa.IndexAddr:
+				if !ok(x, depth+1) {
+					return false
+				}
+			case *ssa.Slice:
+				if !ok(x, depth+1) {
+					return false
+				}
+			case *ssa.Call:
+				ci := g.resolveCall(x.Common())
+				if ci.con == nil || !ci.con.Pure {
+					return false
+				}
+			default:
+				return false
+			}
+		}
+		return true
+	}
+	return ok(a, 0)
+}
+
+type havocFrame struct{ kind, hn, hpre, conds string }
+
+// instFrames instantiates the quantified loop-frame assumptions at a skolem location
+// (generator-side instantiation: the solver need not find these by e-matching).
+func (g *Gen) instFrames(kind, sk string) {
+	for _, f := range g.frames {
+		if f.kind != kind {
+			continue
+		}
+		c := strings.ReplaceAll(f.conds, "(l_obj l)", "(l_obj "+sk+")")
+		c = strings.ReplaceAll(c, "(= l ", "(= "+sk+" ")
+		g.assume("(=> " + c + " (= (select " + f.hn + " " + sk + ") (select " + f.hpre + " " + sk + ")))")
+	}
+}
